@@ -159,13 +159,50 @@ def generators(seed):
         y[3::11] = np.inf
         gens[f"nan-inf-{n}"] = (x, y)
     gens["constant-1000"] = (np.ones(1000), np.arange(1000.0))
+    # two inputs of the same (large) size that differ only near the end,
+    # passed one after the other with the same settings
+    n = 70001
+    x = rs.uniform(0, 1, n)
+    y = rs.uniform(0, 1, n)
+    x2, y2 = x.copy(), y.copy()
+    x2[-3000:] = rs.uniform(2, 3, 3000)
+    y2[-3000:] = rs.uniform(2, 3, 3000)
+    x2[-5:] = np.nan
+    gens[f"twins-{n}"] = (x, y, x2, y2)
     return gens
+
+
+def _twins_case(name, seed, g):
+    from dclab import downsampling as dsm
+    out = []
+    cnt = 0
+    NT[0] = 0
+    n = len(g[0])
+    for samples in (0, 500, n - 10, n):
+        for rem in (False, True):
+            for which, (a, b) in (("first", g[:2]), ("second", g[2:]),
+                                  ("first-again", g[:2])):
+                case = {"kind": "big", "name": name, "seed": seed,
+                        "samples": samples, "remove_invalid": rem,
+                        "func": "downsample_grid", "input": which}
+                r = _call(dsm.downsample_grid, a, b, samples, rem, True)
+                out += check_result("downsample_grid", a, b, samples, rem, r,
+                                    case)
+                r = _call(dsm.downsample_rand, a, samples, rem, True)
+                out += check_result("downsample_rand", a, None, samples,
+                                    rem, r, dict(case,
+                                                 func="downsample_rand"))
+                cnt += 2
+    return cnt, out, NT[0]
 
 
 def _big_case(args):
     name, seed = args
     from dclab import downsampling as dsm
-    a, b = generators(seed)[name]
+    g = generators(seed)[name]
+    if len(g) == 4:
+        return _twins_case(name, seed, g)
+    a, b = g
     n = len(a)
     nv = int(_valid(a, b).sum())
     out = []
